@@ -56,7 +56,7 @@ CHECKS = {
     ),
     "C09": (
         "model_checking",
-        "Product of objectives(10) x active constraint lists (0..3; functions absent/constant/linear/quadratic; both equalities) x pre-existing removed lists (0..2) x {two non-contiguous variable-id layouts, dependency, hints, sense}, plus instances whose constraint ids sit at the top of the id space (u64::MAX-1, u64::MAX), through penalty_method and uniform_penalty_method. Oracle: no active constraint left; every input constraint (previously removed ones included) kept with unchanged id/function/equality; one fresh weight parameter per penalised constraint tagged with its id, ids distinct from variable ids; variables/sense/dependencies carried over; objective == f + sum w_c*g_c^2 (resp. w*sum g_c^2) as a POLYNOMIAL IDENTITY in (x, w) computed in exact rationals (implies equality at every state and weight), plus with_parameters+evaluate on a weight x state grid.",
+        "Product of objectives(10) x active constraint lists (0..3; functions absent/constant/linear/quadratic; both equalities) x pre-existing removed lists (0..2) x {two non-contiguous variable-id layouts, dependency, hints, sense}, plus instances whose constraint ids sit at the top of the id space (u64::MAX-1, u64::MAX), plus every objective x constraint pair with the variable ids moved beyond 32 bits (2^32+1, 2^33+2, 2^40+9; their low halves are defined variables too), through penalty_method and uniform_penalty_method. Oracle: no active constraint left; every input constraint (previously removed ones included) kept with unchanged id/function/equality; one fresh weight parameter per penalised constraint tagged with its id, ids distinct from variable ids; variables/sense/dependencies carried over; objective == f + sum w_c*g_c^2 (resp. w*sum g_c^2) as a POLYNOMIAL IDENTITY in (x, w) computed in exact rationals (implies equality at every state and weight), plus with_parameters+evaluate on a weight x state grid.",
         "Penalised constraints are the input's active ones (already-removed constraints are kept, not penalised). Unset-oneof objectives are outside the alphabet (documented panic of Function arithmetic).",
         "bounded exhaustive enumeration of instances on the real code vs exact polynomial identity",
     ),
